@@ -58,7 +58,7 @@ def T(*names):
     return [f"LSProofs.Gen.{n}" for n in names]
 
 TIE_FUNCS = {
-    "LSProofs.Gen.Ctor": ["Repr.new", "Repr.from_str", "Repr.with_capacity"],
+    "LSProofs.Gen.Ctor": ["Repr.new", "Repr.from_str", "Repr.with_capacity", "Repr.from_static_str"],
     "LSProofs.Gen.Readers": ["Repr.capacity", "Repr.is_unique"],
     "LSProofs.Gen.Release": ["Repr.replace_inner"],
     "LSProofs.Gen.SetLen": ["Repr.set_len", "Repr.truncate_unchecked", "Repr.truncate"],
@@ -85,7 +85,7 @@ TIES = {
     "C07": T("SetLen", "InsertStr", "PopRemove"),
     "C08": T("Clone"),
     "C09": T("Ctor", "Reserve", "PushStr", "InsertStr", "PopRemove"),
-    "C10": T("Reserve", "Ensure", "Clear", "SetLen"),
+    "C10": T("Ctor", "Reserve", "Ensure", "Clear", "SetLen"),
     "C11": T("Readers", "Ctor", "Reserve", "PushStr", "InsertStr"),
     "C12": T("Reserve"),
     "C13": T("Shrink"),
